@@ -200,8 +200,24 @@ func intConst(v ssa.Value) (int64, bool) {
 // describer renders SSA values as canonical terms. Two values with the same term
 // (and no "?" marker) denote the same run-time value at their respective points,
 // under the versioning caveats documented in DESIGN.md §2.4.
+// describeAt renders v as it is at instruction `at`: merges (phis) anywhere inside the
+// expression are resolved to the one incoming value the facts holding at `at` leave possible.
+func describeAt(v ssa.Value, at ssa.Instruction) string {
+	fs := factsAt(at)
+	if fs == nil {
+		fs = []Fact{}
+	}
+	return (&describer{facts: fs}).d(v, 0)
+}
+
+// describeArg renders operand i of a call as it is at the call.
+func describeArg(ci ssa.CallInstruction, i int) string {
+	return describeAt(ci.Common().Args[i], ci)
+}
+
 type describer struct {
 	depth int
+	facts []Fact // when set (describeAt): merges are resolved by these facts
 }
 
 func describe(v ssa.Value) string { return (&describer{}).d(v, 0) }
@@ -341,6 +357,11 @@ func (ds *describer) d(v ssa.Value, depth int) string {
 	case *ssa.MakeClosure:
 		return "closure:" + fname(x.Fn.(*ssa.Function))
 	case *ssa.Phi:
+		if ds.facts != nil {
+			if rv := refine(x, ds.facts); rv != ssa.Value(x) {
+				return ds.d(rv, depth+1)
+			}
+		}
 		return "phi:" + x.Name() + "@" + fname(x.Parent())
 	case *ssa.TypeAssert:
 		return "assert<" + short(x.AssertedType.String()) + ">(" + ds.d(x.X, depth+1) + ")"
